@@ -10,7 +10,7 @@ PID = "C16"
 HEADER = ("From Coq Require Import ZArith List PrimFloat.\n"
           "From Hy Require Import Base.Num Model.Grid Model.Intersect.")
 
-NSESS_QUICK = 80     # operation sequences in the quick tier
+NSESS_QUICK = 60     # operation sequences in the quick tier
 EDGE = 1e-9          # a centre closer than this (in coarse cells) to a cell edge may go either side
 WTOL = 1e-12         # relative tolerance per accumulated addition on a weight
 
@@ -659,17 +659,25 @@ def gen_session(rng, S, G):
 
     def points():
         return [[xll_a + csz_a * rng.randint(-4, 2 * nc + 4) / 2, yll_a + csz_a * rng.randint(-4, 2 * nr + 4) / 2]
-                for _ in range(rng.randint(1, 4))]
+                for _ in range(rng.choice([1, 2, 2, 3, 4]))]
 
     def use(s):
         m = rng.random()
-        if m < 0.62:
+        if m < 0.55:
             return ["intersect", s, rng.choice(grids), rng.random() < 0.4]
         if m < 0.72:
             return ["voronoi", s, points()]
         if m < 0.84:
             return ["plot", s, rng.random() < 0.4]
         return ["touch", s, rng.choice(["extent", "isin", "to_dict", "str", "boundary"])]
+
+    def uses(s):
+        if rng.random() < 0.35:     # every judged reader once, so that whatever the object remembers is in place
+            g = rng.choice(grids)
+            u = [["intersect", s, g, False], ["intersect", s, g, True], ["voronoi", s, points()]]
+            rng.shuffle(u)
+            return u
+        return [use(s) for _ in range(rng.choice([0, 1, 1, 2]))]
 
     ops, slots = [], []
     for s in range(rng.choice([1, 2, 2, 3])):
@@ -679,8 +687,7 @@ def gen_session(rng, S, G):
             cells = gen_cells(rng, n)
             ops.append(["fromdict", s, cells, sorted(set(cells) | {c for c in range(n) if rng.random() < 0.15})])
         slots.append(s)
-        for _ in range(rng.choice([0, 1, 1, 2])):
-            ops.append(use(s))
+        ops += uses(s)
     for _ in range(rng.randint(2, 5)):
         m = rng.random()
         if m < 0.5:
@@ -696,14 +703,13 @@ def gen_session(rng, S, G):
             d = rng.choice(slots)
         if d not in slots:
             slots.append(d)
-        for _ in range(rng.choice([0, 1, 1, 2])):
-            ops.append(use(rng.choice([d, d, rng.choice(slots)])))
+        ops += uses(rng.choice([d, d, rng.choice(slots)]))
     for s in slots:
         g = rng.choice(grids)
         first = rng.random() < 0.5
         ops.append(["intersect", s, g, first])
         ops.append(["intersect", s, g if rng.random() < 0.7 else rng.choice(grids), not first])
-        if rng.random() < 0.3:
+        if rng.random() < 0.6:
             ops.append(["voronoi", s, points()])
     return {"kind": "session", "nr_a": nr, "nc_a": nc, "xll_a": xll_a, "yll_a": yll_a, "csz_a": csz_a,
             "dyadic": dyadic, "fd": fd, "ops": ops}
@@ -718,9 +724,18 @@ def run(ctx):
                 "overlap / arbitrary, filled and unfilled (superset lists, a ring with a hole, areas from "
                 "delineate_area), dyadic and non-dyadic geometry; the kernel directly on points on edges, outside "
                 "on eight sides, NaN/inf, repeats; voronoi: 1..6 points coincident with centres / each other, mirror "
-                "images (ties), lattice, far outside, random; non-trivial = distinct (kind, class) signature")
+                "images (ties), lattice, far outside, random; operation sequences (60, thorough 1000) on 1..5 "
+                "Catchment objects sharing a flow grid up to 8x8 (comb of side-by-side bands with one-cell holes, or "
+                "a random forest): delineate / from_dict, use (intersect on 1..3 grids with both `filled` flags, "
+                "voronoi, plot_area, extent, isin, to_dict, str, delineate_boundary), combine (+, -, onto a new or an "
+                "existing name), clone, to_dict/from_dict round trip, re-delineate at another outlet, use again - every "
+                "intersect / voronoi step judged for the cell set the object's accessors report at that step, and "
+                "every earlier result read again after the sequence; non-trivial = distinct (kind, class) signature")
     ctx.trusted = cm.STD_TRUST + ["numpy fancy-index assignment, np.min/np.max/np.unique (modelled, compared on every case)",
-                                  "Catchment.from_dict used to install arbitrary cell sets (area / filled area)"]
+                                  "Catchment.from_dict used to install arbitrary cell sets (area / filled area)",
+                                  "operation sequences: the cell set of an object is the one its public accessors "
+                                  "idxcells_area / idxcells_area_filled return just before the call (what `+` / `-` / "
+                                  "delineate_area put there is C06's business, not judged here)"]
     ctx.tested_not_proved = [
         "binary64: a weight accumulated by repeated addition equals count x ratio to 1e-12 relative (oracle)",
         "binary64: rounding never moves a centre across a coarse-cell edge that is more than 1e-9 cells away (oracle)",
@@ -848,7 +863,7 @@ def run(ctx):
         do_intersect(gen_delineated(rng, S))
     for _ in range(ctx.scale(400, 4000)):
         do_kernel(gen_kernel(rng, G))
-    for _ in range(ctx.scale(NSESS_QUICK, 1500)):
+    for _ in range(ctx.scale(NSESS_QUICK, 1000)):
         do_session(gen_session(rng, S, G))
     for _ in range(ctx.scale(900, 12000)):
         do_voronoi(gen_voronoi(rng, S))
